@@ -736,6 +736,8 @@ func (h *Harness) Families() []*report {
 	f.floats()
 	f.namespaces()
 	f.unicodeText()
+	f.emptyBodies()
+	f.edgeBundleCases()
 	h.mu.Lock()
 	h.ctx.Extra["family_cases"] = len(f.cases)
 	h.mu.Unlock()
